@@ -512,6 +512,11 @@ func handleChannelBindRequest(req Request, stunMsg *stun.Message) error { // nol
 		return buildAndSendErr(req.Conn, req.SrcAddr, err, badRequestMsg...)
 	}
 
+	// RFC 5766 Section 11.2: a channel number outside 0x4000-0x7FFF is answered with 400 (Bad Request).
+	if !channel.Valid() {
+		return buildAndSendErr(req.Conn, req.SrcAddr, proto.ErrInvalidChannelNumber, badRequestMsg...)
+	}
+
 	peerAddr := proto.PeerAddress{}
 	if err = peerAddr.GetFrom(stunMsg); err != nil {
 		return buildAndSendErr(req.Conn, req.SrcAddr, err, badRequestMsg...)
